@@ -74,7 +74,7 @@ def main():
                         'tests/net/test_tcp.py::test_tcp_lookup_failure', '-q'], cwd=d, env=env, timeout=1500)
             last = [ln for ln in o.strip().splitlines() if 'passed' in ln or 'failed' in ln][-1:] or [o[-200:]]
             out['tests'] = {'rc': rc, 'summary': last[0]}
-        if keep:
+        if keep and out.get('demo_discriminates'):
             dst = os.path.join(VERIF, 'seeded', keep)
             os.makedirs(dst, exist_ok=True)
             shutil.copy(patch, os.path.join(dst, 'patch.diff'))
